@@ -40,7 +40,7 @@ def monitor_counts():
 
 
 def plan(tier):
-    out = []
+    out = [('pair|near-6digits', _PER[tier])]
     for kind, fams in ELEMENTARY_FAMILIES.items():
         for fam in fams:
             out.append((f'{kind}|{fam}', _PER[tier]))
@@ -49,6 +49,9 @@ def plan(tier):
 
 def build(case):
     kind, fam = case.family.split('|')
+    if kind == 'pair':
+        from .c13 import build_near_pairs
+        return build_near_pairs(case.rng)
     params = elementary(case.rng, kind, fam)
     sur = M.Surf(1, kind, params)
     deck = probe_deck([sur], [M.S(-1), M.S(1)],
@@ -65,7 +68,8 @@ def run(case, ctx):
     deck = build(case)
     out.tags |= deck.tags
     sur = deck.surfs[0]
-    out.structure = f'{sur.kind}:{[round(float(v), 3) for v in sur.params]}'
+    out.structure = ';'.join(f'{s.kind}:{[round(float(v), 5) for v in s.params]}'
+                             for s in deck.surfs[:6])
     run_ = convert_deck(case, ctx, out, deck)
     if not run_.ok:
         mech = None
